@@ -39,14 +39,17 @@ type Found struct {
 }
 
 type ExploreOpts struct {
-	Run        Options
-	Bound      int // preemption bound; <0: unbounded
-	Shard      int
-	NShards    int
-	MaxExec    int64
-	Deadline   time.Time
-	Outcome    func(*Execution) string // terminal observation signature
-	Check      func(*Execution) []Violation
+	Run   Options
+	Bound int // preemption bound; <0: unbounded
+	// ChoicesOnly: explore only the alternatives of explicit Choose points of the running thread (every
+	// data / operation choice) on the default schedule; no alternative thread orders at all
+	ChoicesOnly bool
+	Shard       int
+	NShards     int
+	MaxExec     int64
+	Deadline    time.Time
+	Outcome     func(*Execution) string // terminal observation signature
+	Check       func(*Execution) []Violation
 	StopAtFirst bool
 	Prune       bool // prune on the global-state fingerprint (sound for deterministic threads, see stateKey)
 }
@@ -158,6 +161,9 @@ func Explore(scenario func(), eo ExploreOpts) *Report {
 				if eo.Bound >= 0 && c > eo.Bound {
 					continue
 				}
+				if eo.ChoicesOnly && !(p.RunningEnabled && int(p.OptThreads[alt]) == p.Running) {
+					continue
+				}
 				if depth == 0 { // shard on the top-level branches
 					*top++
 					if *top%eo.NShards != eo.Shard {
@@ -199,6 +205,9 @@ func Explore(scenario func(), eo ExploreOpts) *Report {
 				if eo.Bound >= 0 && c > eo.Bound {
 					continue
 				}
+				if eo.ChoicesOnly && !(p.RunningEnabled && int(p.OptThreads[alt]) == p.Running) {
+					continue
+				}
 				top++
 				if top%eo.NShards != eo.Shard {
 					continue
@@ -228,7 +237,6 @@ func hashState(x *Execution, i int) uint64 {
 	}
 	return h
 }
-
 
 func sameKeys(a, b *Execution) bool {
 	if len(a.Points) != len(b.Points) {
